@@ -478,9 +478,10 @@ def check_batch(ctx, batch, fs, ms, stats, do_meta=True):
     if not do_meta:
         return res
     rng = ctx.rng
-    # batch independence: each row alone gives the same features
+    # batch independence: rows alone (a few per batch) and the whole batch in reverse order
     if N > 1:
-        for w, r, info in zip(batch, res, infos):
+        for wi in rng.sample(range(N), min(N, 2)):
+            w, r = batch[wi], res[wi]
             r1 = impl_features(to_array([w]), fs, ms)
             stats["meta_calls"] += 1
             if isinstance(r1, Exception):
@@ -490,9 +491,22 @@ def check_batch(ctx, batch, fs, ms, stats, do_meta=True):
             c = rows_equal(r1[0], r)
             if c:
                 ctx.fail("column %s of a waveform depends on the other waveforms of the batch (%r alone, %r in batch)"
-                         % (c, r1[0][c], r[c]), dict(desc, batch=batch, row=batch.index(w)),
+                         % (c, r1[0][c], r[c]), dict(desc, batch=batch, row=wi),
                          {"class": "batch", "clause": "batch_independence"})
                 break
+        rr = impl_features(arr[::-1], fs, ms)
+        stats["meta_calls"] += 1
+        if isinstance(rr, Exception):
+            ctx.fail("reversing the batch order makes the call raise %r" % (rr,), dict(desc, batch=batch),
+                     {"class": "batch", "clause": "batch_independence"})
+        else:
+            for wi in range(N):
+                c = rows_equal(rr[N - 1 - wi], res[wi])
+                if c:
+                    ctx.fail("column %s of waveform %d changes when the batch order is reversed (%r -> %r)"
+                             % (c, wi, res[wi][c], rr[N - 1 - wi][c]), dict(desc, batch=batch, row=wi),
+                             {"class": "batch", "clause": "batch_independence"})
+                    break
     # positive scaling: indices unchanged, values and slopes scaled
     cfac = rng.choice([2.0, 3.0, 0.5, 1.5, 7.0, 1024.0, 0.125])
     r2 = impl_features(arr * cfac, fs, ms)
@@ -513,7 +527,9 @@ def check_batch(ctx, batch, fs, ms, stats, do_meta=True):
         rng.shuffle(perm)                  # new channel j holds old channel perm[j]
         r3 = impl_features(arr[:, :, perm], fs, ms)
         stats["meta_calls"] += 1
-        if isinstance(r3, Exception):
+        if isinstance(r3, Exception) and not all(i["unique_channel"] for i in infos):
+            stats["perm_skipped_tie"] += 1       # a tie between channels may legitimately move the pick
+        elif isinstance(r3, Exception):
             ctx.fail("permuting channels makes the call raise %r" % (r3,), dict(desc, batch=batch, perm=perm),
                      {"class": "meta", "clause": "permutation"})
         else:
@@ -536,7 +552,7 @@ def run(ctx):
     batches = gen_batches(ctx)
     stats = {k: 0 for k in ("rows", "raised", "swap", "doubly_positive", "peak_last5", "trough_last5",
                             "recovery_fallback", "positive_peak", "channel_tie", "nan", "peak_eq_trough",
-                            "meta_calls", "perm_rows", "nondefault_fs_or_ms")}
+                            "meta_calls", "perm_rows", "perm_skipped_tie", "nondefault_fs_or_ms")}
     inputs, outputs, descs = [], [], []
     nontrivial = set()
     samples = []
@@ -589,7 +605,7 @@ def replay(ctx, data):
     batch, fs, ms = inp["batch"], inp.get("fs"), inp.get("ms")
     stats = {k: 0 for k in ("rows", "raised", "swap", "doubly_positive", "peak_last5", "trough_last5",
                             "recovery_fallback", "positive_peak", "channel_tie", "nan", "peak_eq_trough",
-                            "meta_calls", "perm_rows", "nondefault_fs_or_ms")}
+                            "meta_calls", "perm_rows", "perm_skipped_tie", "nondefault_fs_or_ms")}
     res = check_batch(ctx, batch, fs, ms, stats)
     if isinstance(res, Exception):
         print("implementation raised:", repr(res))
